@@ -90,6 +90,13 @@ def configs(tier):
                 if (second.get("op") == "add" or first.get("op") == "add") and ua != "cm":
                     continue
                 add(pre=[dict(first, dta="float64", sa=(2,), ua=ua)], dta="float64", sa=(2,), ua=ua, **second)
+    # 5. histories on the SAME operands: an earlier operation / conversion / comparison, then an in-place change of one operand,
+    #    then the operation (a conversion remembered inside an operand must not be observable)
+    for op in ("add", "sub", "mul", "div"):
+        for warm in ("same-op", "to", "cmp"):
+            for mut in ("b_iadd", "b_imul", "b_set", "b_view_set", "a_iadd"):
+                for ua, ub in [("m", "cm"), ("cm", "cm")]:
+                    add(op=op, rhs="Array", dta="float64", dtb="float64", sa=(2,), sb=(2,), ua=ua, ub=ub, warm=warm, mut=mut)
     for c in out:
         for k in ("sa", "sb"):
             if k in c:
@@ -149,6 +156,25 @@ def body(m, cfg):
             mag = m.array("b", sb, dtb)
             b = osyris.units._ureg.Quantity(mag, cfg["ub"])
             bv = m.vals(mag)
+        if cfg.get("warm"):
+            warm, mut = cfg["warm"], cfg["mut"]
+            tag += f":after:{warm}:{mut}"
+            try:
+                {"same-op": lambda: BIN["add" if op == "div" else op](a, b), "to": lambda: b.to(a.unit), "cmp": lambda: a < b}[warm]()
+            except DimensionalityError:
+                pass
+            if mut == "b_iadd":
+                b += Array(m.array("d", sb, dtb), unit=cfg["ub"])
+            elif mut == "b_imul":
+                b *= 2.0
+            elif mut == "b_set":
+                b.values[0] = m.real("v")
+            elif mut == "b_view_set":
+                b[1:].values[0] = m.real("v")
+            elif mut == "a_iadd":
+                a += Array(m.array("d", sa, dta), unit=cfg["ua"])
+            av, bv = m.vals(a._array), m.vals(b._array)
+            snap_a = C.snapshot(m, a)
         if op == "div":
             for t in bv:
                 m.assume(m.Not(m.eq(t, 0)))      # cut: division by zero
